@@ -9,7 +9,7 @@ THEOREMS = ['Otel.C10.' + t for t in (
     'lookup_eq_most_recent', 'get_set_same', 'get_set_other', 'hasKey_set_same', 'setValues_shadow', 'setValues_empty_keeps',
     'setValue_refines_map', 'setValues_refines_map',
     'older_unaffected_step', 'older_unaffected', 'older_unaffected_answers', 'new_context_fresh',
-    'detach_attach_restores', 'detach_out_of_order_unwinds', 'detach_most_recent_first', 'detach_foreign_noop',
+    'attach_makes_current', 'detach_attach_restores', 'detach_out_of_order_unwinds', 'detach_most_recent_first', 'detach_foreign_noop',
     'detach_foreign_result', 'detach_eq_spec', 'balanced_restores', 'attach_above_detach_restores',
     'scope_open_activates_span', 'scope_release_restores_span', 'scope_nested_release_reactivates',
     'thread_isolation_step', 'thread_isolation', 'ctxSpanKey_eq')]
